@@ -283,6 +283,25 @@ pub fn accepted_low_level(level: usize, mut f: impl FnMut(u64, &[u8])) -> u64 {
         f(n, &p);
         n += 1;
     }
+    for m in all_label_bytes_messages() {
+        for st in [Strategy::Plain, Strategy::Max] {
+            let p = encode(&m, st);
+            f(n, &p);
+            n += 1;
+        }
+    }
+    if level >= 1 {
+        let mut acc: Vec<Vec<u8>> = vec![];
+        field_value_packets(|_, p| {
+            if wf(p).is_ok() {
+                acc.push(p.to_vec());
+            }
+        });
+        for p in acc {
+            f(n, &p);
+            n += 1;
+        }
+    }
     n
 }
 
@@ -807,4 +826,82 @@ pub fn length_field_packets(mut f: impl FnMut(u64, &[u8])) -> u64 {
         }
     }
     n
+}
+
+/// Every value of each header count, every 14-bit pointer target (as owner and as rdata name) on two base
+/// packets, every pair (first byte, second byte) at the start of the question name and of an owner name.
+pub fn field_value_packets(mut f: impl FnMut(u64, &[u8])) -> u64 {
+    let mut n = 0u64;
+    let base = kitchen_sink(Strategy::Max);
+    let small = {
+        let mut m = base_msg(&nm("b.a"), T_A, true);
+        m.an.push(name_rec(&nm("b.a"), T_CNAME, 1, &nm("a")));
+        encode(&m, Strategy::Max)
+    };
+    for v in 0..=0xffffu32 {
+        for pos in [4usize, 6, 8, 10] {
+            let mut p = small.clone();
+            p[pos] = (v >> 8) as u8;
+            p[pos + 1] = v as u8;
+            f(n, &p);
+            n += 1;
+        }
+        // first two bytes of the question name / of an owner name
+        let mut p = vec![0x12, 0x34, 0x80, 0, 0, 1, 0, 0, 0, 0, 0, 0, (v >> 8) as u8, v as u8, b'a', 0, 0, 1, 0, 1];
+        f(n, &p);
+        n += 1;
+        p = small[..small.len()].to_vec();
+        let own = 12 + 5 + 4; // owner of the first answer
+        p[own] = (v >> 8) as u8;
+        p[own + 1] = v as u8;
+        f(n, &p);
+        n += 1;
+    }
+    for t in 0..0x4000usize {
+        for bp in [&base, &small] {
+            // a trailing record whose owner is the pointer t, and a CNAME whose target is the pointer t
+            for kind in 0..2 {
+                let mut p = bp.clone();
+                let an = ((p[6] as u16) << 8 | p[7] as u16) + 1;
+                // append to the additional section (last) and bump arcount
+                let ar = ((p[10] as u16) << 8 | p[11] as u16) + 1;
+                let _ = an;
+                p[10] = (ar >> 8) as u8;
+                p[11] = ar as u8;
+                if kind == 0 {
+                    p.extend_from_slice(&[0xc0 | (t >> 8) as u8, t as u8, 0, 1, 0, 1, 0, 0, 0, 1, 0, 4, 1, 2, 3, 4]);
+                } else {
+                    p.extend_from_slice(&[0, 0, 5, 0, 1, 0, 0, 0, 1, 0, 2, 0xc0 | (t >> 8) as u8, t as u8]);
+                }
+                f(n, &p);
+                n += 1;
+            }
+        }
+    }
+    n
+}
+
+/// For every byte value that may appear in a label: a message with names that contain it, its bit-5 twin and
+/// its ASCII-case twin, as owners and inside NS/MX/SOA data (pointer-free encoding).
+pub fn all_label_bytes_messages() -> Vec<Msg> {
+    let mut v = vec![];
+    for b in 0x20u8..=0xff {
+        if forbidden_label_byte(b) {
+            continue;
+        }
+        let twin5 = b ^ 0x20;
+        if forbidden_label_byte(twin5) {
+            continue;
+        }
+        let n1 = name_from_labels(&[&[b'p', b, b'q'], b"zz"]);
+        let n2 = name_from_labels(&[&[b'p', twin5, b'q'], b"zz"]);
+        let n3 = name_from_labels(&[&[b'P', b.to_ascii_uppercase(), b'Q'], b"ZZ"]);
+        let mut m = base_msg(&n1, T_A, true);
+        m.an.push(name_rec(&n2, T_CNAME, 1, &n3));
+        m.an.push(mx_rec(&n3, 1, 1, &n1));
+        m.ns.push(soa_rec(&n2, 1, &n1, &n3));
+        m.ar.push(a_rec(&n2, 1, [1, 2, 3, b]));
+        v.push(m);
+    }
+    v
 }
